@@ -24,3 +24,6 @@ package prelude
 //@ spec func be64(b []byte) int
 //@ assume func encoding/binary.bigEndian.Uint64
 //@   ensures result == @be64(arg0)
+
+//@ assume func golang.org/x/exp/slices.Contains
+//@   ensures result <==> (exists i int :: 0 <= i && i < len(arg0) && arg0[i] == arg1)
